@@ -574,6 +574,8 @@ class Interp:
         elif isinstance(v, (ClassVal, Obj)):
             if name == "__name__":
                 return v.name
+            if name == "__mro__":
+                return tuple(self.mro(v))
             a, owner = self.find_in_class(v, name)
             if owner is not None:
                 return self._bind_class(a, v)
@@ -588,6 +590,19 @@ class Interp:
             if name in v.table:
                 return v.table[name]
         elif isinstance(v, SArr):
+            if name == "__class__":
+                return Obj("pytype", {"__name__": "ndarray"}, name="ndarray")
+            if name == "dtype":
+                if getattr(v, "dt", None) is not None:
+                    return v.dt
+                vals = v.flat() if v.sym is None else None
+                if vals is not None and all(isinstance(x, bool) for x in vals) and vals:
+                    return self.np_dtype("int8")
+                if vals is not None and vals and all(isinstance(x, int) and not isinstance(x, bool) for x in vals):
+                    return self.np_dtype("int64")
+                if vals is not None and all(isinstance(x, (int, float)) and not isinstance(x, bool) for x in vals):
+                    return self.np_dtype("float64")  # also the empty array
+                raise AnalysisError("peval: dtype of an abstract array with unknown / mixed content")
             if name == "shape":
                 return v.shape
             if name == "size":
@@ -597,6 +612,15 @@ class Interp:
                 return n
             if name == "ndim":
                 return len(v.shape)
+            if name == "strides" and getattr(v, "itemsize", None) is not None:
+                perm = getattr(v, "perm", None)
+                st, acc = [], v.itemsize
+                for d in reversed(v.shape if perm is None else v.base_shape):
+                    st.insert(0, acc)
+                    acc *= d
+                return tuple(st) if perm is None else tuple(st[p] for p in perm)
+            if name in ("tolist",):
+                return Builtin("ndarray.tolist", lambda _v=v: _v.flat() if _v.ndim == 1 else [_v.data.get(i) for i in _v.indices()])
             if name in ("transpose", "reshape", "tobytes", "copy", "flatten"):
                 return Builtin(f"ndarray.{name}", lambda *a, _v=v, _n=name, **k: self._arr_method(_v, _n, a, k))
         elif isinstance(v, (str, list, dict, tuple)):
@@ -622,7 +646,16 @@ class Interp:
             return self.getattr(v.ns, name, node, default)
         if default is not KeyError:
             return default
+        if isinstance(v, SArr):
+            raise AnalysisError(f"peval: ndarray.{name} is not modelled")
         raise PyExc("AttributeError", f"{v!r} has no attribute {name}")
+
+    def np_dtype(self, n):
+        """one dtype object per name and interpreter (identity comparisons of dtypes work)"""
+        tbl = self.__dict__.setdefault("_np_dtypes", {})
+        if n not in tbl:
+            tbl[n] = self.call(self.getattr(self.np, "dtype"), [n], {})
+        return tbl[n]
 
     def _is_descriptor(self, a, meth):
         """a is an instance (created by evaluated code) of a class that defines `meth` (__get__/__set__)"""
@@ -1078,6 +1111,10 @@ class Interp:
             for op, c in zip(e.ops, e.comparators):
                 right = self.eval(c, fr)
                 r = self.compare(op, left, right, e)
+                if isinstance(r, SArr):
+                    if len(e.ops) == 1:
+                        return r  # elementwise comparison of arrays yields an array
+                    raise PyExc("ValueError", "The truth value of an array with more than one element is ambiguous")
                 if isinstance(r, Unk):
                     r = self.decide(r, e)
                 if not r:
@@ -1180,6 +1217,13 @@ class Interp:
             if isinstance(k, int):
                 k = (k,)
             k = tuple(k)
+            if len(k) < c.ndim and c.sym is None and all(isinstance(x, int) for x in k):
+                # partial index: the sub-array (numpy semantics)
+                sub = SArr(c.shape[len(k):])
+                for idx, v in c.data.items():
+                    if idx[: len(k)] == k:
+                        sub.data[idx[len(k):]] = v
+                return sub
             if len(k) != c.ndim:
                 raise PyExc("IndexError", f"too many/few indices for array of rank {c.ndim}: {k}")
             for i, s in zip(k, c.shape):
@@ -1282,6 +1326,8 @@ class Interp:
             if isinstance(a, Sym) and isinstance(b, Sym):
                 same = a == b
             return same if isinstance(op, ast.Is) else not same
+        if (isinstance(a, SArr) or isinstance(b, SArr)) and isinstance(op, (ast.Eq, ast.NotEq, ast.Lt, ast.LtE, ast.Gt, ast.GtE)):
+            return self._arr_compare(op, a, b)
         if isinstance(op, (ast.In, ast.NotIn)):
             if isinstance(b, (Obj, ClassVal)):
                 ct = self.getattr(b, "__contains__", default=None)
@@ -1495,6 +1541,15 @@ class Interp:
                 I.setattr(o, n, v)
             return None
 
+        def _delattr(o, n):
+            if isinstance(o, Obj):
+                if n not in o.attrs:
+                    raise PyExc("AttributeError", n)
+                del o.attrs[n]
+            elif isinstance(o, ClassVal):
+                I.class_attrs(o).pop(n, None)
+            return None
+
         def _type(*a):
             if len(a) == 1:
                 x = a[0]
@@ -1593,6 +1648,7 @@ class Interp:
             "hasattr": Builtin("hasattr", lambda o, n: I.hasattr(o, n)),
             "getattr": Builtin("getattr", _getattr),
             "setattr": Builtin("setattr", _setattr),
+            "delattr": Builtin("delattr", _delattr),
             "tuple": tuple,
             "list": list,
             "dict": dict,
@@ -1644,10 +1700,41 @@ class Interp:
                 return SArr([0] * len(shape), sym=f"empty{I._fresh()}")
             return SArr(shape)
 
+        def _seq_items(e):
+            """the items of e if numpy's array coercion would take e apart (a sequence), else None"""
+            if isinstance(e, (list, tuple)):
+                return list(e)
+            if isinstance(e, SArr) and e.sym is None and e.ndim >= 1:
+                if e.ndim == 1:
+                    return [e.data.get((i,), Opaque("uninit")) for i in range(e.shape[0])]
+                return None
+            if isinstance(e, Obj) and e.kind == "instance" and e.cls is not None:
+                ln, gi = I.getattr(e, "__len__", default=None), I.getattr(e, "__getitem__", default=None)
+                if ln is not None and gi is not None:
+                    n_ = I.call(ln, [], {})
+                    if isinstance(n_, int):
+                        return [I.call(gi, [i], {}) for i in range(n_)]
+            return None
+
         def array(x, dtype=None):
             if isinstance(x, SArr):
                 return x
+            if isinstance(x, (int, float, Sym)) and not isinstance(x, bool) or isinstance(x, str):
+                z = SArr([])  # 0-d array
+                z.data[()] = x
+                return z
             xs = I.iterate(x)
+            if (dtype is object or (isinstance(dtype, Namespace) and dtype.name == "object")) and xs:
+                # numpy takes nested sequences of equal length apart, also with dtype=object
+                rows = [_seq_items(e) for e in xs]
+                if all(r is not None for r in rows) and len({len(r) for r in rows}) == 1 and len(rows[0]) > 0:
+                    inner = [array(r, dtype=dtype) for r in rows]
+                    if all(isinstance(r, SArr) and r.shape == inner[0].shape for r in inner):
+                        a = SArr([len(xs)] + list(inner[0].shape))
+                        for i, r in enumerate(inner):
+                            for idx, v in r.data.items():
+                                a.data[(i,) + idx] = v
+                        return a
             a = SArr([len(xs)])
             for i, v in enumerate(xs):
                 a.data[(i,)] = v
@@ -1678,10 +1765,38 @@ class Interp:
                 return float(v)
             return Opaque(f"{n}({v!r})")
 
+        _dtypes = {}
+
         def dtype(n):
             if isinstance(n, Obj):
                 return n
-            return Obj("dtype", {"itemsize": DT[n], "name": n, "type": Builtin(f"{n}.type", lambda v=0: _conv(n, v)), "str": n}, name=f"dtype({n})")
+            if n not in _dtypes:
+                _dtypes[n] = Obj("dtype", {"itemsize": DT[n], "name": n, "type": Builtin(f"{n}.type", lambda v=0: _conv(n, v)), "str": n}, name=f"dtype({n})")
+            return _dtypes[n]
+
+        def _close(a, b, rtol=1e-05, atol=1e-08):
+            import ast as _ast
+
+            d = I._arr_compare(_ast.Eq(), a, b) if (isinstance(a, SArr) or isinstance(b, SArr)) else None
+
+            def one(x, y):
+                if isinstance(x, (int, float)) and isinstance(y, (int, float)):
+                    return abs(x - y) <= atol + rtol * abs(y)
+                raise AnalysisError(f"peval: np.isclose of non-concrete values {x!r}, {y!r}")
+
+            if d is None:
+                return one(a, b)
+            # same broadcasting as ==, other predicate
+            A = a if isinstance(a, SArr) else array(a)
+            B = b if isinstance(b, SArr) else array(b)
+            out = SArr(d.shape)
+            nd = len(d.shape)
+            sa, sb = (1,) * (nd - A.ndim) + A.shape, (1,) * (nd - B.ndim) + B.shape
+            for idx in out.indices():
+                ia = tuple(0 if dd == 1 else i for i, dd in zip(idx, sa))[nd - A.ndim:]
+                ib = tuple(0 if dd == 1 else i for i, dd in zip(idx, sb))[nd - B.ndim:]
+                out.data[idx] = one(A.data.get(ia), B.data.get(ib))
+            return out
 
         def _anyall(x, red):
             if isinstance(x, (bool, int, float)):
@@ -1721,6 +1836,12 @@ class Interp:
             "isnan": Builtin("np.isnan", lambda x: Unk(f"isnan({x!r})") if isinstance(x, (Sym, Opaque)) else x != x),
             "isinf": Builtin("np.isinf", lambda x: Unk(f"isinf({x!r})") if isinstance(x, (Sym, Opaque)) else abs(x) == float("inf")),
             "ndarray": Opaque("np.ndarray"),
+            "isclose": Builtin("np.isclose", _close),
+            "allclose": Builtin("np.allclose", lambda a, b, **k: _anyall(_close(a, b, **k), all)),
+            "float64": dtype("float64"),
+            "float32": dtype("float32"),
+            "int64": dtype("int64"),
+            "int32": dtype("int32"),
             "any": Builtin("np.any", lambda x: _anyall(x, any)),
             "all": Builtin("np.all", lambda x: _anyall(x, all)),
             "ceil": Builtin("np.ceil", lambda x: _num1("ceil", x)),
@@ -1732,6 +1853,53 @@ class Interp:
         self.fresh += 1
         return self.fresh
 
+    def _arr_compare(self, op, a, b):
+        """elementwise comparison with numpy's broadcasting rules (incompatible shapes raise ValueError)"""
+        def as_arr(x):
+            if isinstance(x, SArr):
+                if x.sym is not None:
+                    raise AnalysisError("peval: comparison of a symbolic array")
+                return x
+            if isinstance(x, (list, tuple)):
+                out = SArr([len(x)])
+                for i, v in enumerate(x):
+                    out.data[(i,)] = v
+                return out
+            if isinstance(x, (int, float, Sym)) or x is None:
+                out = SArr([])
+                out.data[()] = x
+                return out
+            if isinstance(x, Obj) and x.kind == "instance" and x.cls is not None and self.getattr(x, "__iter__", default=None) is None:
+                gi, ln = self.getattr(x, "__getitem__", default=None), self.getattr(x, "__len__", default=None)
+                if gi is not None and ln is not None:
+                    # numpy's coercion of a sequence without __iter__: obj[0], obj[1], ... until IndexError
+                    items = []
+                    for i in range(64):
+                        try:
+                            items.append(self.call(gi, [i], {}))
+                        except PyExc as e_:
+                            if e_.etype == "IndexError":
+                                break
+                            raise
+                    return as_arr(items)
+            raise AnalysisError(f"peval: comparison of an array with {x!r} (numpy's implicit conversion of this object is not modelled)")
+
+        A, B = as_arr(a), as_arr(b)
+        nd = max(A.ndim, B.ndim)
+        sa, sb = (1,) * (nd - A.ndim) + A.shape, (1,) * (nd - B.ndim) + B.shape
+        shape = []
+        for x, y in zip(sa, sb):
+            if x == y or x == 1 or y == 1:
+                shape.append(y if x == 1 else x)
+            else:
+                raise PyExc("ValueError", f"operands could not be broadcast together with shapes {A.shape} {B.shape}")
+        out = SArr(shape)
+        for idx in out.indices():
+            ia = tuple(0 if d == 1 else i for i, d in zip(idx, sa))[nd - A.ndim:]
+            ib = tuple(0 if d == 1 else i for i, d in zip(idx, sb))[nd - B.ndim:]
+            out.data[idx] = self.compare(op, A.data.get(ia, Opaque("uninit")), B.data.get(ib, Opaque("uninit")))
+        return out
+
     def _arr_method(self, v, name, a, k):
         if name == "transpose":
             perm = list(self.iterate(a[0])) if a else list(reversed(range(v.ndim)))
@@ -1740,6 +1908,11 @@ class Interp:
             out = SArr([v.shape[p] for p in perm], sym=v.sym)
             for idx, val in v.data.items():
                 out.data[tuple(idx[p] for p in perm)] = val
+            if getattr(v, "itemsize", None) is not None:
+                out.itemsize = v.itemsize
+                base = getattr(v, "perm", None) or list(range(v.ndim))
+                out.perm = [base[p] for p in perm]
+                out.base_shape = getattr(v, "base_shape", v.shape)
             return out
         if name == "reshape":
             shp = list(self.iterate(a[0])) if len(a) == 1 and not isinstance(a[0], int) else list(a)
